@@ -424,11 +424,15 @@ def gen_deribit_market(rng, name, n, prices, **opts):
             continue
         instruments[nm] = {"type": kind, "strike": strike, "expiry": str(expiry)}
         meta[nm] = {"placement": place, "settle_hour": settle_h}
+    # every expiry has its own underlying (the future it settles against): a constant basis of up to 3 % against the spot
+    # path per instrument when the world asks for it, so that `underlying_price` of a book row and the account's token
+    # price are different numbers
+    basis = {nm: (1.0 + rng.uniform(-0.03, 0.03) if opts.get("basis") else 1.0) for nm in sorted(instruments)}
     hrs = []
     for h, t in enumerate(hours):
         rows = {}
-        s = path[h]
         for nm in sorted(instruments):
+            s = path[h] * basis[nm]
             ins = instruments[nm]
             k = ins["strike"]
             intr = max(0.0, (s - k) / s) if ins["type"] == "CALL" else max(0.0, (k - s) / s)
